@@ -63,6 +63,7 @@ struct USock
 	bool drain = false;     // reader that always keeps a receive pending
 	int64_t sndbuf = -1;    // configured send buffer, -1 default
 	bool df = false;        // don't-fragment option as last stated
+	std::unique_ptr<asio::high_resolution_timer> shadow; // application timer coinciding with the first hop's forward timer
 	int64_t last_send_t = -1;
 	// pending receive
 	int style = 0;
@@ -337,6 +338,15 @@ struct Udp
 				if (egress_after != egress_before) fail("udp.send.unbound_sent", "a datagram to an endpoint nobody is bound to was put on the wire");
 			}
 			sent.push_back(x);
+		}
+		if (plan.c("shadow_timer") && plan.c("n" + std::to_string(s.node) + "olat") > 0)
+		{
+			// an application timer armed for the instant the sender's first hop forwards the datagram, re-armed at the next
+			// send: taking one timer out of the simulation's queue must not take out another one due at the same instant
+			if (!s.shadow) s.shadow.reset(new asio::high_resolution_timer(*ioc[size_t(s.node)]));
+			s.shadow->expires_after(duration(plan.c("n" + std::to_string(s.node) + "olat")));
+			s.shadow->async_wait([this](error_code const&) { ++ctx.handlers; });
+			ctx.hit("shadow_timer_armed");
 		}
 		if (burst > 1) ctx.hit("burst");
 		int64_t const buf = s.sndbuf > 0 ? s.sndbuf : 20000000;
@@ -648,7 +658,7 @@ struct Udp
 		ctx.nontrivial = deliv > 0 && (ctx.cnt.count("close") || ctx.cnt.count("truncating_receive") || ctx.cnt.count("discarded_tail_drop") || ctx.cnt.count("burst"));
 		ctx.sim_ns = now_ns();
 		driver.reset();
-		for (auto& s : socks) s.s.reset();
+		for (auto& s : socks) { s.shadow.reset(); s.s.reset(); }
 		ioc.clear();
 		sim.reset();
 	}
@@ -679,6 +689,7 @@ struct UdpEngine : Engine
 		}
 		p.cfg["corebw"] = rng.chance(0.6) ? 0 : rng.logu(50000, 100000000);
 		p.cfg["corelat"] = rng.pick(std::vector<int64_t>{0, 1000000, 30000000});
+		p.cfg["shadow_timer"] = rng.chance(0.25) ? 1 : 0;
 		p.cfg["corecap"] = (finite && rng.chance(0.4)) ? rng.logu(2000, 400000) : 0;
 		int const ns = int(rng.range(2, k_max_socks));
 		p.cfg["socks"] = ns;
